@@ -72,6 +72,16 @@ func genC18(g *gen) {
 				steps = append(steps, fmt.Sprintf("arg %s %s $%d %d vs=2", []string{"argmax", "argmin"}[gi%2], []string{"fn", "meth"}[gi%2], shared[gi%len(shared)], len(sh)-1), fmt.Sprintf("dump $%d", lv))
 				lv++
 			}
+			// every goroutine opens with a burst of pool traffic at the same time as the others: private copies handed back
+			// to the pool, views and new tensors (whose headers come from the pool) created and read in between
+			if k%2 == 0 {
+				for rep := 0; rep < 6; rep++ {
+					sv0 := shared[(gi+rep)%len(shared)]
+					steps = append(steps, fmt.Sprintf("clone $%d", sv0), fmt.Sprintf("ret $%d", lv), fmt.Sprintf("slice $%d %s", sv0, g.randSliceList(sh)),
+						fmt.Sprintf("dump $%d", lv+1), fmt.Sprintf("new %s 2,2 C", dt), fmt.Sprintf("dump $%d", lv+2), fmt.Sprintf("ret $%d", lv+2))
+					lv += 3
+				}
+			}
 			nsteps := 3 + g.r.intn(6)
 			for s := 0; s < nsteps; s++ {
 				sv := shared[g.r.intn(len(shared))]
